@@ -61,7 +61,7 @@ class Case:
             home = home or self.r.choice(INTS)
             self.homes[m] = home
             self.schemas[m] = schema
-            return f'{spell(home, self.style)}.{schema}.{m}'
+            return f'{spell(home, self.style)}.{schema if schema.isascii() else "`" + schema + "`"}.{m}'
         if home is None and name is None and self.r.random() < 0.12:
             home = 'proj2'              # a table (view) of a project that holds no model: declared in the catalog as a non-data entry
             self.uses_project = True
@@ -73,13 +73,13 @@ class Case:
         return f'SELECT {alias}.c FROM {self.tbl(home)} AS {alias} WHERE {alias}.k > 1'
 
 
-def build(r, style, kind=None):
+def build(r, style, kind=None, default_ns=None):
     """(text, Case)"""
     c = Case(r, style)
     kind = kind or r.choice(['from', 'join', 'join3', 'where-sub', 'target-sub', 'case-sub', 'func-sub', 'cte', 'insert-select', 'update-from',
                              'delete-sub', 'model', 'model-version', 'model-2tables', 'union', 'where-sub-join', 'target-sub-join',
                              'model-twice', 'model-twice', 'qualified-cols', 'delete-qualified', 'update-qualified', 'model-select',
-                             'model-sub-twice', 'cte-named-like-foreign-table', 'table-named-like-model', 'schema-named-like-integration', 'ts-model-join', 'native-query'])
+                             'model-sub-twice', 'cte-named-like-foreign-table', 'table-named-like-model', 'schema-named-like-integration', 'ts-model-join', 'native-query', 'schema-named-like-integration', 'table-named-like-model'])
     c.positions.add(kind)
     if kind == 'table-named-like-model':
         # a data table whose name is also the name of a model in the catalog (of the default project, or of another project)
@@ -106,7 +106,8 @@ def build(r, style, kind=None):
         other = r.choice([i for i in INTS if i != home])
         return f'SELECT a1.c, a2.c FROM {nq} AS a1 JOIN {c.tbl(other)} AS a2 ON a1.k = a2.k', c
     if kind == 'schema-named-like-integration':
-        home = r.choice(INTS)
+        # (often the integration that is also the default namespace: naming it explicitly must change nothing)
+        home = default_ns if default_ns in INTS and r.random() < 0.6 else r.choice(INTS)
         other = r.choice([i for i in INTS if i != home])
         # (the schema may also be spelled like the table's OWN integration: `int1.int1.t` is the table `int1.t` of int1)
         sch = r.choice([other, other, 'sch', 'mindsdb', 'proj', other.upper(), home, home])
@@ -406,12 +407,61 @@ def judge(case, rows, default_ns):
     return out
 
 
+def run_name_coincidences(ctx):
+    """Every pair (integration of the table, schema part) x every default namespace x two statement shapes: a schema, a table or a
+    default namespace spelled like an integration / project must not move a table to another place."""
+    from mindsdb_sql import parse_sql
+    from mindsdb_sql.planner import plan_query
+    from mindsdb_sql.exceptions import PlanningException
+    acc = ctx.acc
+    k = -1
+    for home in INTS:
+        for sch in INTS + ['sch', 'mindsdb', 'proj']:
+            for default_ns in [None, 'mindsdb'] + INTS:
+                for shape in ('join', 'where-sub', 'alone'):
+                    k += 1
+                    if not ctx.mine(k):
+                        continue
+                    r = core.rng_for(ctx.seed, 'C10coincide', k)
+                    c = Case(r, 'lower')
+                    ts_ = c.tbl(home, schema=sch)
+                    other = r.choice([i for i in INTS if i != home])
+                    if shape == 'alone':
+                        text = f'SELECT a1.c FROM {ts_} AS a1 WHERE a1.k = 1'
+                    elif shape == 'join':
+                        text = f'SELECT a1.c, a2.c FROM {ts_} AS a1 JOIN {c.tbl(other)} AS a2 ON a1.k = a2.k WHERE a1.x > 1'
+                    else:
+                        text = f'SELECT a2.c FROM {c.tbl(other)} AS a2 WHERE a2.k IN (SELECT a1.c FROM {ts_} AS a1)'
+                    c.positions.add('schema-named-like-integration')
+                    for form in (k % 10, (k + 3) % 10):
+                        acc.ev()
+                        try:
+                            tree = parse_sql(text, 'mindsdb')
+                        except Exception:
+                            acc.count('generator_text_rejected')
+                            continue
+                        try:
+                            plan = plan_query(tree, **catalog(form, c, default_ns))
+                        except (PlanningException, NotImplementedError):
+                            acc.count('planning_rejections')
+                            continue
+                        except Exception:
+                            acc.count('internal_error_is_C09')
+                            continue
+                        acc.count('name_coincidence_plans')
+                        rows = routing(plan)
+                        for sig, det in judge(c, rows, default_ns):
+                            acc.fail(dict(sig, position='schema-named-like-integration', spelling='lower', default_namespace_is=('the-table-integration' if default_ns == home else 'the-schema-name' if default_ns == sch else 'other')),
+                                     dict(det, text=text, catalog_form=form, default_namespace=default_ns, routing=[repr(x)[:160] for x in rows][:8]))
+
+
 def run_shard(ctx):
     from mindsdb_sql import parse_sql
     from mindsdb_sql.planner import plan_query
     from mindsdb_sql.planner.query_planner import QueryPlanner
     from mindsdb_sql.exceptions import PlanningException
     acc = ctx.acc
+    run_name_coincidences(ctx)
     n = 1500 if ctx.tier == 'quick' else 60000
     styles = ['lower', 'upper', 'cap']
     for i in range(n):
@@ -427,7 +477,7 @@ def run_shard(ctx):
         maps = {}
         for style in styles:
             r = core.rng_for(base_seed, 'shape')        # same shape, different qualifier spelling
-            text, case = build(r, style, kind)
+            text, case = build(r, style, kind, default_ns)
             for form in ({form0, (form0 + 3) % 10, (form0 + 7) % 10} if style == 'lower' else {form0}):
                 acc.ev()
                 try:
